@@ -46,6 +46,7 @@ KINDS = {
     "neg": ([("b", "boolean")], "boolean"),
     "ints": ([("n", "int")], "int[]"),
     "nsum": ([("n", "int[]")], "int"),
+    "smkd": ([("m", "string[]")], "Directory[]"),
 }
 
 
@@ -86,9 +87,16 @@ def _tool(kind, sname, dup=False):
         t.update(inputs=ins, stdout=sname + ".txt", outputs={"o": "stdout"})
     elif kind == "mkd":
         t.update(sh('mkdir -p "$2/sub/deep" "$2/empty"; printf "%s\\n" "$1" > "$2/a.txt"; '
-                    'printf "%s-%s\\n" "$1" "$1" > "$2/sub/b.txt"; printf "%s\\n" "$1" > "$2/sub/deep/a.txt"',
+                    'printf "%s-%s\\n" "$1" "$1" > "$2/sub/b.txt"; printf "%s\\n" "$1" > "$2/sub/deep/a.txt"; '
+                    'printf "%s+\\n" "$1" > "$2/sub/a.txt"',
                     "$(inputs.m)", sname + "_dir"))
         t.update(inputs=ins, outputs={"o": {"type": "Directory", "outputBinding": {"glob": sname + "_dir"}}})
+    elif kind == "smkd":
+        # every scatter job writes rep/summary.txt and rep/details/summary.txt: same names, different content,
+        # inside one tree and across the jobs
+        t.update(sh('mkdir -p rep/details; printf "%s\\n" "$1" > rep/summary.txt; '
+                    'printf "%s!\\n" "$1" > rep/details/summary.txt; printf "same\\n" > rep/common.txt', "$(inputs.m)"))
+        t.update(inputs={"m": "string"}, outputs={"o": {"type": "Directory", "outputBinding": {"glob": "rep"}}})
     elif kind == "scat":
         t.update(sh('cat "$1"; printf "%s\\n" "$2"', "$(inputs.f.path)", "$(inputs.m)"))
         t.update(inputs={"f": "File", "m": "string"}, stdout="$(inputs.f.nameroot)_" + sname + ".txt",
@@ -152,9 +160,9 @@ class C34(Prop):
     CORR_MODULE = "Crate.Corr"
     LEVEL = "translation_validation"
     LEVEL_TEXT = ("Translation validation by a checker proved sound AND complete in Coq (closed under the global context): "
-                  "crate_ok graph entries values stepvalues = true iff the declarative well-formedness predicate holds (every entity "
-                  "has a string @id, @ids unique, every nested {\"@id\"} reference that is not an http(s) URL resolves, every "
-                  "File entity has an archive entry of that name whose digest equals the recorded sha1 and whose size equals "
+                  "doc_ok metadata entries values stepvalues = true iff the declarative predicate wf_doc holds (the metadata is an "
+                  "object with an @context whose @graph is an array; every entity has a string @id, @ids unique, every nested {\"@id\"} reference that is not an http(s) URL resolves, every "
+                  "File entity records a sha1 and has an archive entry of that name whose digest equals it and whose size equals "
                   "the recorded contentSize when present, every workflow-level input/output value of the run is represented by "
                   "an entity listed under object/result of the root CreateAction, tied by exampleOfWork to the formal parameter "
                   "of that name, with matching sha1+size archive entry for files, literal text for literals, element-wise for "
@@ -175,7 +183,7 @@ class C34(Prop):
     TECHNIQUE = ("verified checker (Coq soundness+completeness proof of crate_ok w.r.t. a declarative predicate) evaluated "
                  "with vm_compute on crates exported from real runs; independent Python oracle from the property text")
     RULE = ("cases are typed random workflow specs over step kinds cat/echo/num/flag/expr/len/words/ls/mkd/scat/secho/"
-            "split/join/idn/neg/ints/nsum (files vs literals incl. the falsy ones 0, false, \"\", zeros in arrays, scatter over File[] and string[], nested directories in and out, the same "
+            "split/join/idn/neg/ints/nsum/smkd (files vs literals incl. the falsy ones 0, false, \"\", zeros in arrays, scatter over File[] and string[], nested directories in and out, members with one basename and different content inside a tree and across scatter jobs, the same "
             "file/content used for two inputs, step outputs consumed by later steps and/or exported, inputs passed "
             "straight to outputs, embedded vs external tool files, optional deletion of an input/output/intermediate "
             "file or directory member before export; one case per run has 11-13 steps s1..s13 sharing one tool file). Non-trivial = the run completed and the crate was exported. "
@@ -188,6 +196,7 @@ class C34(Prop):
                    "plus, per step job, the consumed and produced values whose source is a workflow input or an exported step output",
                    "references whose @id starts with http:// or https:// are web resources and need no entity in the graph",
                    "a literal is represented by its Python str() or JSON text")
+    MIN_JUDGED = 20        # floor on cases with an oracle verdict AND a Coq term (set per tier in gen)
     MAX_WORKERS = 8
     SHRINK_BUDGET_S = 0    # every shrink candidate is two engine runs; replays carry the unshrunk case
     CASES_PER_WORKER = 1   # every case is two real engine processes (run + prov)
@@ -236,9 +245,12 @@ class C34(Prop):
                 tree = {}
             elif r < 0.5:
                 tree = {"f1": "x\n", "f2": rng.choice(["y\n", "x\n"])}
-            else:
+            elif r < 0.75:
                 tree = {"f1": "x\n", "sub": {"f2": "y\n", "deep": {"f3": rng.choice(["z\n", "x\n"])}},
                         "sub2": {"f2": "y\n"}}
+            else:   # one basename, different content, at three depths of one tree
+                tree = {"f1": "x\n", "summary.txt": f"top{idx}\n",
+                        "details": {"summary.txt": "inner\n", "more": {"summary.txt": "deep\n", "f1": "other\n"}}}
             return {"n": n, "t": ty, "v": {"name": f"dir{idx}", "tree": tree}}
         raise ValueError(ty)
 
@@ -300,6 +312,8 @@ class C34(Prop):
 
     def gen(self, rng, tier):
         n = {"quick": 24, "thorough": 160, "extended": 48}[tier]
+        if tier in ("quick", "thorough"):   # at least 60 % of the cases (12 corpus + n) must yield a judged crate
+            self.MIN_JUDGED = int(0.6 * (n + 12))
         cases = []
         cases.append(self._many(rng))
         for _ in range(n - 1):
@@ -373,7 +387,7 @@ class C34(Prop):
             step = {"run": run, "in": dict(st["in"]), "out": ["o"]}
             if st["k"] == "scat":
                 step["scatter"] = "f"
-            if st["k"] == "secho":
+            if st["k"] in ("secho", "smkd"):
                 step["scatter"] = "m"
             wf["steps"][st["n"]] = step
         json.dump(wf, open(os.path.join(d, "wf.cwl"), "w"), indent=1)
@@ -420,6 +434,8 @@ class C34(Prop):
             for x in v:
                 if isinstance(x, dict) and x.get("class") == "File":
                     items.append(filev(x))
+                elif isinstance(x, dict) and x.get("class") == "Directory":
+                    items.append({"kind": "dir", "files": dirfiles(x), "path": x["path"]})
                 elif isinstance(x, (dict, list)) or x is None:
                     return {"dir": "out", "param": name, "kind": "unsupported"}
                 else:
@@ -493,7 +509,7 @@ class C34(Prop):
 
         steps = []
         for st in c["steps"]:
-            scattered = {"scat": "f", "secho": "m"}.get(st["k"])
+            scattered = {"scat": "f", "secho": "m", "smkd": "m"}.get(st["k"])
             out = val_of(f"{st['n']}/o")
             consts = [(p_, val_of(src)) for p_, src in st["in"].items() if p_ != scattered]
             known = [v for _, v in consts if v is not None]
@@ -581,14 +597,11 @@ class C34(Prop):
     def coq_case(self, c, o):
         if o.get("status") != "exported" or o.get("meta") is None:
             return None
-        g = o["meta"].get("@graph") if isinstance(o["meta"], dict) else None
-        if not isinstance(g, list):
-            return None
         for v in o["values"]:
             if v["kind"] == "unsupported":
                 return None
         verdict = oracle_crate(o["meta"], o["archive"], o["values"], o.get("steps", [])) is None
-        graph = coq_list([coq_json(e) for e in g])
+        graph = coq_json(o["meta"])
         ar = coq_list([f"({coq_str(n)}, {coq_str(h)}, {coq_N(s)})" for n, h, s in o["archive"]])
         vals = coq_list([coq_rv(v) for v in o["values"]])
         svs = coq_list([coq_sv(v) for v in o.get("steps", [])])
@@ -650,6 +663,8 @@ def coq_json(x):
 
 
 def coq_item(it):
+    if it["kind"] == "dir":
+        return "(IDir " + coq_list(["(" + coq_str(f["sha1"]) + ", " + coq_N(f["size"]) + ")" for f in it["files"]]) + ")"
     if it["kind"] == "file":
         return f"(IFile {coq_str(it['sha1'])} {coq_N(it['size'])})"
     return f"(ILit {coq_list([coq_str(a) for a in it['alts']])})"
@@ -741,6 +756,8 @@ def oracle_crate(meta, archive, values, steps=()):
             ents = [(h, s) for n, h, s in archive if n == e["@id"]]
             if not ents:
                 return ("file-missing", f"File entity {e['@id']!r} ({e.get('alternateName')}) has no archive entry")
+            if not isinstance(e.get("sha1"), str):
+                return ("file-no-checksum", f"File entity {e['@id']!r} records no sha1")
             for h, s in ents:
                 if "sha1" in e and e["sha1"] != h:
                     return ("file-digest", f"File entity {e['@id']!r} records sha1 {e['sha1']}, archive entry has {h}")
@@ -812,6 +829,14 @@ def _lit_text(j):
 
 
 def _item_ok(seen, archive, j, it):
+    if it["kind"] == "dir":
+        if not (isinstance(j, dict) and isinstance(j.get("@id"), str)):
+            return False
+        y = j["@id"]
+        if y not in seen or "Dataset" not in _types(seen[y]):
+            return False
+        reach = _reach(seen, y)
+        return all(any(_file_ok(seen, archive, z, f["sha1"], f["size"]) for z in reach) for f in it["files"])
     if it["kind"] == "file":
         return isinstance(j, dict) and isinstance(j.get("@id"), str) and _file_ok(seen, archive, j["@id"], it["sha1"], it["size"])
     t = _lit_text(j)
